@@ -114,6 +114,22 @@ type vfC07bListArgs struct {
 	Opts *zoekt.ListOptions
 }
 
+// vfC07bEstimate wraps a searcher and reports a chosen ShardFilesConsidered for the EstimateDocCount pre-flight of
+// CalculateDefaultSearchLimits, so that the corpus-size dependent arithmetic of the JSON handler is exercised
+// for every size class (the real corpus here has three documents).
+type vfC07bEstimate struct {
+	zoekt.Searcher
+	numdocs int
+}
+
+func (e *vfC07bEstimate) Search(ctx context.Context, q query.Q, opts *zoekt.SearchOptions) (*zoekt.SearchResult, error) {
+	res, err := e.Searcher.Search(ctx, q, opts)
+	if err == nil && res != nil && opts != nil && opts.EstimateDocCount {
+		res.Stats.ShardFilesConsidered = e.numdocs
+	}
+	return res, err
+}
+
 // vfC07bJCase records one request for the model of the handlers' control flow (coq/Model/JsonApi.v): what the
 // decoder, Parse and the searcher did (observed here by calling them directly) and the HTTP status of the handler.
 func vfC07bJCase(searcher zoekt.Searcher, path, method string, body []byte, status int) {
@@ -339,6 +355,20 @@ func TestVerifC07b(t *testing.T) {
 			sb.WriteString(r.Pick(frag))
 		}
 		bodies = append(bodies, sb.String())
+	}
+	// ---- corpus-size classes of CalculateDefaultSearchLimits
+	for _, nd := range []int{0, 1, 2, 99, 100, 101, 999, 1000, 1001, 1999, 2000, 9999, 10000, 10001, 10999, 11000, 1000000, 1 << 40, -1, -1000, -20000} {
+		h := zjson.JSONServer(&vfC07bEstimate{Searcher: searcher, numdocs: nd})
+		for _, md := range []string{"1", "50", "-1", "1000000", "9223372036854775807", "-9223372036854775808"} {
+			body := "{\"Q\":\"hello\",\"Opts\":{\"MaxDocDisplayCount\":" + md + "}}"
+			rec := httptest.NewRecorder()
+			if p := vfC07bStage(func() { h.ServeHTTP(rec, httptest.NewRequest("POST", "/search", strings.NewReader(body))) }); p != "" {
+				vfOracleFail("json/search:limits:"+p, fmt.Sprintf("JSON API /search panics while computing default limits for a corpus of %d documents: %s", nd, p),
+					map[string]any{"body": body, "path": "/search", "estimated_documents": nd})
+			} else {
+				vfC07bJCase(searcher, "/search", "POST", []byte(body), rec.Code)
+			}
+		}
 	}
 	for _, m := range []string{"GET", "PUT", "DELETE"} {
 		for _, path := range []string{"/search", "/list"} {
